@@ -427,7 +427,51 @@ def install():
     ql.propagate = False
     import warnings
     warnings.simplefilter("ignore")
+    # the abort exception of the scheduler must not be swallowed by wasyncore's bare excepts
+    from . import simsched
+    wa._reraised_exceptions = tuple(wa._reraised_exceptions) + (simsched.SimAbort,)
+    import waitress.trigger as wtr
+    orig_pull = wtr.trigger._physical_pull
+
+    def _physical_pull(self_):
+        w = CUR
+        if w is not None:
+            w.yield_point("trigger.pull", None)
+            w.trigger_pulls += 1
+        orig_pull(self_)
+        if w is not None:
+            w.yield_point("trigger.pulled", None)
+
+    wtr.trigger._physical_pull = _physical_pull
     _installed = True
+
+
+class BareWorld:
+    """clock + progress counter only (scheduler scenarios without a server, e.g. the worker pool alone)"""
+
+    def __init__(self, sched):
+        global CUR
+        install()
+        import waitress.task as wt
+        self.sched = sched
+        sched.world = self
+        self.clock = Clock()
+        self.progress = 0
+        self.logs = []
+        self.tracebacks = []
+        self.keep_tracebacks = False
+        wt.threading = sched.threading_shim()
+        CUR = self
+
+    def on_sleep(self, s):
+        self.sched.sleep(s)
+
+    def yield_point(self, kind, obj):
+        self.sched.yield_point(kind, obj)
+
+    def close(self):
+        global CUR
+        CUR = None
 
 
 class World:
@@ -441,6 +485,8 @@ class World:
         import waitress.trigger as wtr
         CUR = self
         self.sched = sched
+        if sched is not None:
+            sched.world = self
         self.clock = Clock()
         self.fds = {}
         self._next_fd = 1000
@@ -455,6 +501,7 @@ class World:
         self.last_select = None
         self.would_block = False
         self.spin = False
+        self.trigger_pulls = 0
         self.sndbuf = sndbuf
         self.handle_errors = []
         self.map = {}
@@ -597,6 +644,17 @@ class World:
             else:
                 stuck = 0
         raise HarnessError("single-thread world did not reach quiescence in %d turns" % max_turns)
+
+    # ---- scheduled mode
+    def io_main(self):
+        import waitress.wasyncore as wa
+        if len(self.servers) == 1:
+            self.server.run()
+        else:
+            wa.loop(timeout=self.adj.asyncore_loop_timeout, map=self.map, use_poll=self.adj.asyncore_use_poll)
+
+    def start_io(self):
+        return self.sched.spawn(self.io_main, name="io")
 
     def close(self):
         global CUR
